@@ -201,9 +201,18 @@ fn execute_guarded<C: Check>(check: &C, case: &C::Case, stats: &mut Stats) -> Ru
 pub fn minimise<C: Check>(check: &C, case: &C::Case, oracle: &str) -> (C::Case, Violation, u64) {
     let mut cur = case.clone();
     let mut scratch = Stats::default();
-    let mut cur_v = execute_guarded(check, &cur, &mut scratch)
-        .violation
-        .expect("minimise called on a passing case");
+    let mut cur_v = match execute_guarded(check, &cur, &mut scratch).violation {
+        Some(v) => v,
+        // the case no longer fails when re-executed here (its outcome depends on what this thread or
+        // process ran before): hand it back unminimised, the confirmation step decides what to do
+        None => {
+            return (
+                cur,
+                Violation { oracle: oracle.to_string(), detail: "did not fail again when re-executed in this process".into() },
+                0,
+            )
+        }
+    };
     let mut execs = 0u64;
     let start = Instant::now();
     'outer: loop {
